@@ -91,6 +91,13 @@ func VerifC11Extract() {
 	names := []string{"d/a", "d/b", "d/s/u", "d/../victim", "d/a/../../../victim", dirPath + "/a", root + "/victim", "d/c"}
 	links := []string{"a", "b", "..", "../../victim", root + "/victim", "s/u/../../victim", "c", "../c", "d/c", "s"}
 	types := []byte{tar.TypeReg, tar.TypeDir, tar.TypeSymlink, tar.TypeLink}
+	if verifrt.Param("family", 0) == 1 {
+		// symlink-chain family: link targets that pass through earlier symlinks
+		must(os.MkdirAll(filepath.Join(dirPath, "s"), 0o755))
+		names = []string{"d/a", "d/s/u", "d/x"}
+		links = []string{"..", "s/u/../../victim", "s/u/../a", "a", "x"}
+		types = []byte{tar.TypeReg, tar.TypeSymlink}
+	}
 	var buf bytes.Buffer
 	tw := tar.NewWriter(&buf)
 	for i := 0; i < n; i++ {
